@@ -635,7 +635,8 @@ def typed_histories(fc):
         elif name == "ddof":
             out.append((name, [1, 0, 1.0, True, 0, False]))
         else:
-            out.append((name, [2, 3, 2.0, 2, True, 1, 1.0, 2.0]))
+            # ... and values whose CPython hashes collide although the values differ (hash(-1) == hash(-2) == -2)
+            out.append((name, [2, 3, 2.0, 2, True, 1, 1.0, 2.0, -1, -2, -1, -1.0, -2.0]))
     return out
 
 
